@@ -44,11 +44,13 @@ CLAIMED = {
         text='Coq theorems for grids with any number of dimensions, sizes >= 1, in ANY storage permutation (spectroscopic shape, not more '
              'dimensions than points): the computed order is a permutation that ranks all dimensions of size >= 2 exactly fastest->slowest '
              '(ties only among size-1 dimensions), reported sizes = number of distinct indices = dimension sizes, closed form of the cyclic '
-             'change count, and the grid described by the computed order is the stored grid. get_unit_values / create_spec_inds_from_vals / '
-             'accessors are modelled as written and validated against the code in coqc; an independent oracle judges every output.',
+             'change count, and the grid described by the computed order is the stored grid; get_unit_values (orientation given) on a grid in any '
+             'storage order with ANY value function returns exactly one value per index in index order (C09_unit_values_exact; the row algorithm is '
+             'proved on every row of the tile / repeat form, which also covers sliced grids). create_spec_inds_from_vals and the accessors are '
+             'modelled as written and validated against the code in coqc; an independent oracle judges every output.',
         design='5/C09',
-        note='Trusted: Coq kernel, numpy unique/where/diff/argsort as mirrored, harness. Partial: unit-value extraction and values->indices '
-             'rebuild have executable models tied by correspondence but no grid theorem yet. Open known findings: every place where the '
+        note='Trusted: Coq kernel, numpy unique/where/diff/argsort as mirrored, harness. Partial: the values->indices rebuild '
+             '(create_spec_inds_from_vals) has an executable model tied by correspondence but no grid theorem. Open known findings: every place where the '
              'orientation of a matrix is guessed from its shape fails for as many / more dimensions than points (listed per call site).',
         technique='Coq proof (change-count counting lemma, sorted-permutation uniqueness) + in-Coq correspondence evaluation'),
     'C10': dict(
@@ -242,8 +244,8 @@ CLAIMED['C11'] = dict(
          '(identities), labels, index and value matrices of both sides, reuse of the source\'s ancillaries, on generator datasets in every storage '
          'order and on datasets written by write_main_dataset under both flags.',
     design='5/C11',
-    note='Trusted: Coq kernel, harness. Selections reach the model sorted and de-duplicated (C07 proves that the 2-D slice does that). The tie of '
-         'get_unit_values on the sliced matrices to "chosen values in increasing index order" is validated by the correspondence, not proved. '
+    note='Trusted: Coq kernel, harness. Selections reach the model sorted and de-duplicated (C07 proves that the 2-D slice does that). That '
+         'get_unit_values on the sliced matrices yields the chosen values in increasing index order is theorem C11_unit_values_of_the_sliced_matrices. '
          'Validity of the written dataset is C02\'s theorem plus the independent validator.',
     technique='Coq proof (selected-rows enumeration theorem + composition with C08 write_ind_val theorems) + vm_compute correspondence against the written datasets')
 
